@@ -32,7 +32,7 @@ func init() {
 	register(&mc.Check{
 		ID:    "C12",
 		Level: "fault_enumeration",
-		Rule: "applications with growing session records x all input histories up to depth d; for the LAST request of each history (old record = state before it, or absent for a new session; new record = state after it) EVERY crash point of EVERY mutating file operation performed by the whole request (Exec..Finish) is enumerated: death before the operation, after it, and - for each write of n bytes - after every prefix of 1..n-1 bytes; process death = panic with a sentinel inside the os shim, all engine/persister/store objects discarded; in addition every operation is answered once with an I/O error (refused; writes also as short writes of 1, n/2, n-1 bytes) after which the request runs to its end; " +
+		Rule: "applications with growing session records x all input histories up to depth d; for the LAST request of each history (old record = state before it, or absent for a new session; new record = state after it) EVERY crash point of EVERY mutating file operation performed by the whole request (Exec..Finish) is enumerated: death before the operation, after it, and - for each write of n bytes - after every prefix of 1..n-1 bytes; process death = panic with a sentinel inside the os shim, all engine/persister/store objects discarded; in addition every operation is answered once with an I/O error (refused; writes also as short writes of 1, n/2, n-1 bytes) after which the request runs to its end; and for every history the next start's read of the record fails once; " +
 			"oracle with fresh objects on the same directory: the neighbour session's record is byte-identical and no foreign file appears, the session's record decodes to the old state or to a state a completed save of that request wrote (never empty/truncated/undecodable), and the next request of a fresh engine answers exactly as the crash-free run does from that state; distinct = (app, history, operation kind, when) classes; non-trivial = crash points inside a write or between two operations of one save",
 		Assumptions: []string{"process death leaves completed writes intact (power loss / dropped unsynced blocks is outside the statement)", "the shim covers the os/ioutil functions listed in _shimsrc/vos; a tree that needs others fails to build (exit 2)", "leftover temporary files whose names start with '.' are tolerated"},
 		Run:         c12Run,
@@ -318,6 +318,53 @@ func c12Crash(appi int, inputs []string, p vos.Point, refs map[string]string) (s
 	return "", "", true
 }
 
+// c12ReadFault: the session exists; the next start cannot read its record (one transient I/O error). The
+// request must report an error and leave the record alone - not start a new session over it - and the
+// request after that, undisturbed, continues the session.
+func c12ReadFault(appi int, inputs []string) (sig, msg string) {
+	dir, _ := os.MkdirTemp(mc.Scratch(), "c12rd")
+	defer os.RemoveAll(dir)
+	c12Prepare(appi, dir, inputs)
+	rec := recordPath(dir, "s1")
+	before, err := os.ReadFile(rec)
+	if err != nil {
+		return "", ""
+	}
+	where := fmt.Sprintf("app %d history %q, then a request whose read of the session record fails once with an I/O error", appi, inputs)
+	fired := false
+	vos.FailRead = func(name string) error {
+		if !fired && filepath.Base(name) == filepath.Base(rec) {
+			fired = true
+			return fmt.Errorf("input/output error")
+		}
+		return nil
+	}
+	fresh := c12Session(c12App(appi), dir, "s1", nil)
+	r := fresh.Request([]byte("1"))
+	vos.FailRead = nil
+	if !fired {
+		return "", ""
+	}
+	if r.Panic != "" {
+		return "panic", where + ": panic " + r.Panic
+	}
+	after, err := os.ReadFile(rec)
+	if err != nil || string(after) != string(before) {
+		k1, _ := decodeKey(before)
+		k2, _ := decodeKey(after)
+		return "read-error-overwrites-session", fmt.Sprintf("%s: the request answered %s and the stored record changed from %s to %s (%v)", where, r.Client(), k1, k2, err)
+	}
+	if r.ExecErr == "" {
+		return "read-error-not-reported", fmt.Sprintf("%s: the request reports no error (%s)", where, r.Client())
+	}
+	want := c12Reference(appi, append(append([]string{}, inputs...), "1"))
+	again := c12Session(c12App(appi), dir, "s1", nil)
+	if got := again.Request([]byte("1")).Client(); got != want {
+		return "continues-from-wrong-state", fmt.Sprintf("%s: the next, undisturbed request answers %s, reference %s", where, got, want)
+	}
+	return "", ""
+}
+
 func c12Refs(appi int, inputs []string) map[string]string {
 	k := len(inputs) - 1
 	refs := map[string]string{}
@@ -334,6 +381,9 @@ func c12Replay(w json.RawMessage) (string, string) {
 	if err := json.Unmarshal(w, &wit); err != nil {
 		return "bad-witness", err.Error()
 	}
+	if wit.Point.When == "read-fault" {
+		return c12ReadFault(wit.App, wit.Inputs)
+	}
 	s, m, _ := c12Crash(wit.App, wit.Inputs, wit.Point, c12Refs(wit.App, wit.Inputs))
 	return s, m
 }
@@ -349,6 +399,14 @@ func c12Run(c *mc.Ctx) {
 		for d := 0; d <= depth; d++ {
 			histories(a.Inputs, d, func(rest []string) {
 				inputs := append([]string{""}, rest...)
+				if c.Mine() {
+					sig, msg := c12ReadFault(appi, inputs)
+					c.Count("evaluations", 1)
+					c.Count("read_fault_cases", 1)
+					if sig != "" {
+						c.Fail(sig, msg, c12Witness{App: appi, Inputs: inputs, Point: vos.Point{When: "read-fault"}})
+					}
+				}
 				ops, _, oldAbsent, putKeys := c12Ops(appi, inputs)
 				if len(ops) == 0 {
 					return
